@@ -150,6 +150,14 @@ pub struct Case {
     /// what the ambient context already holds under the case's key when an ambient hop pushes the props
     #[serde(default)]
     pub enclosing: crate::obs::Enclosing,
+    /// the call site is `emit::dbg!(<attr> v: x)` (emits through the SHARED runtime; read inside the
+    /// emitter installed there). `mode == Default` means no attribute: dbg! documents Debug capture.
+    #[serde(default)]
+    pub dbg_macro: bool,
+    /// a second capture attribute written BEFORE the one in `mode` on the same property
+    /// (`#[emit::as_<stacked>] #[emit::as_<mode>] v: x`), props! / emit! sites
+    #[serde(default)]
+    pub stacked: Option<Mode>,
 }
 
 pub const STATICS: [&str; 8] = ["", "static text", "info", "0000000000000001", "caf\u{e9} \u{1F600}", "line\nbreak\t\"q\"", "1.5", "null"];
@@ -320,6 +328,15 @@ pub struct Expect {
 }
 
 impl Expect {
+    /// Append a further tolerated alternative at the end of the chain.
+    pub fn or_else(&mut self, alt: Expect, label: &'static str) {
+        let mut cur = self;
+        while cur.alt.is_some() {
+            cur = &mut cur.alt.as_mut().unwrap().0;
+        }
+        cur.alt = Some((Box::new(alt), label));
+    }
+
     pub fn new(key: &'static str, kind: Kind) -> Expect {
         Expect {
             key,
@@ -729,15 +746,20 @@ pub fn judge(exp: &Expect, hops: &[Hop], reads: &[Read], cx: &mut Cx) -> Res {
         let at = if prefix.is_empty() { "direct".to_string() } else { format!("after {prefix:?}") };
         let mut ev = Eval { fails: Vec::new(), dont_care: Vec::new(), classes: Vec::new() };
         eval_read(exp, r, buffered, &mut ev, &at);
-        if !ev.fails.is_empty() {
-            if let Some((alt, label)) = &exp.alt {
-                let mut ev2 = Eval { fails: Vec::new(), dont_care: Vec::new(), classes: Vec::new() };
-                eval_read(alt, r, buffered, &mut ev2, &at);
-                if ev2.fails.is_empty() {
-                    ev2.dont_care.push(label);
-                    ev = ev2;
-                }
+        // walk the chain of tolerated alternatives: the first one that holds turns the outcome into a
+        // (labelled) don't-care; if none holds the PRIMARY failures are reported
+        let mut cur = exp;
+        let mut holds = ev.fails.is_empty();
+        while !holds {
+            let Some((alt, label)) = &cur.alt else { break };
+            let mut ev2 = Eval { fails: Vec::new(), dont_care: Vec::new(), classes: Vec::new() };
+            eval_read(alt, r, buffered, &mut ev2, &at);
+            if ev2.fails.is_empty() {
+                ev2.dont_care.push(label);
+                ev = ev2;
+                holds = true;
             }
+            cur = alt;
         }
         for c in ev.classes {
             cx.class(c);
